@@ -26,7 +26,10 @@ try:
     meta["confirmed"] = bool(meta["patch_applies"] and meta["suite_with_change"]["passes"] and rc_clean == 0 and rc_mut != 0)
     # our checks against it: a private copy of /verif pointed at the changed worktree (VERIF_REPO), so that /repo itself is
     # never touched and several seeds can be tried at the same time; the evidence written by the copy is thrown away
-    if meta.get("confirmed") and "--nocheck" not in sys.argv:
+    if "--force" in sys.argv and not meta["confirmed"]:
+        meta["note"] = ("the demonstration no longer fails on the current base (a later fix closed the path it used); the change itself still "
+                        "applies and our check was run against it anyway (--force)")
+    if (meta.get("confirmed") or "--force" in sys.argv) and "--nocheck" not in sys.argv:
         cv = "/tmp/cv-%s" % sid
         sh("rm -rf %s && mkdir -p %s && rsync -a --exclude .git --exclude work --exclude 'build/h-*' --exclude seeded %s/ %s/" % (cv, cv, V, cv))
         sh("cd %s && rm -rf _build" % wt)
